@@ -5,6 +5,7 @@ import EchVerif.Spec.Hello
 import EchVerif.DNS.Text
 import EchVerif.Resolve.Targets
 import EchVerif.Resolve.Resolve
+import EchVerif.Resolve.CacheLts
 import EchVerif.Dial.Config
 import EchVerif.Ctx.Lts
 import EchVerif.Dial.Lts
@@ -283,6 +284,11 @@ def resolveOp2 (cw : CacheWorld) (toks : List String) : Option (CacheWorld × St
     let log := if r.s.isEmpty then "_" else ",".intercalate (r.s.map fun (n, t) => s!"{hex n}/{t}")
     some (cw, s!"res={RT.showResult r.result} err={RT.errS r.err} log={log}")
   | ["cache-reset"] => some ({}, "ok")
+  | ["cache-fresh", startedAt, rcvd, ttl] => do
+    -- one observed answer of a concurrent lookup: call start, latest possible arrival of the response
+    -- it came from, that response's smallest TTL (the predicate of C16_concurrent_answer_fresh)
+    let f : CacheLts.Fetch := ⟨← rcvd.toNat?, ← ttl.toNat?, 0⟩
+    some (cw, if CacheLts.answerFresh (← startedAt.toNat?) f then "S ok" else "S fail answer-older-than-its-ttl-at-call-start")
   | ["cache-resolve", scheme, name, port, lh, ip, uni, now] => do
     let p ← RT.readParsed scheme name port lh ip
     let U ← RT.readUniverse uni
